@@ -203,9 +203,9 @@ def _export_runs(prop, tier, ops):
         c = dict(N=n, props=[prop])
         c.update(cfg)
         if tier != "quick" and c.get("seg", True):
-            c["shape"] = (3, 1, 2)
+            c["shape"] = (4, 1, 1) if c.get("op") == "csv" else (3, 1, 2)
         runs.append(Run(f"export:{name}:N={n}", export.harness, c, export_replay.replay,
-                        ("exported",), f"solution forest on <= {n} node slots (all shapes, symbolic times/ids), every "
+                        ("exported", "witness:chain_of_three"), f"solution forest on <= {n} node slots (all shapes, symbolic times/ids), every "
                         f"subset of its nodes as selection, label array with arbitrary non-negative symbolic labels"))
     return runs
 
@@ -254,8 +254,8 @@ def C18(tier, seed):
             candgraph.points_replay, ("built", "witness:frame_gap"),
             "%d detections in 4 frames, 1-D positions (|a-b| <= r is linear: one more detection is affordable)"
             % (4 if q else 5)),
-        Run("seg:%s" % ("3x2" if q else "3x3"), candgraph.seg_harness,
-            dict(shape=(3, 2) if q else (3, 3), labels=3, scale="sym"), candgraph.seg_replay,
+        Run("seg:%s" % ("3x1x2" if q else "3x1x3"), candgraph.seg_harness,
+            dict(shape=(3, 1, 2) if q else (3, 1, 3), labels=3, scale="sym"), candgraph.seg_replay,
             ("built", "witness:empty_middle_frame"),
             "label array 3 frames x %d cells, labels 0..3 unique across time, symbolic spacing and distance"
             % (2 if q else 3)),
